@@ -19,7 +19,8 @@ THEOREMS = [
     'Pfst.C02.root_identity', 'Pfst.C02.touch_preserves_links', 'Pfst.C02.linkInv_mem',
     'Pfst.C02.offset_touches_changed', 'Pfst.C02.offset_cache_coherent', 'Pfst.C02.view_heal', 'Pfst.C02.view_len',
     'Pfst.C02.view_ops_valid', 'Pfst.C02.slicePut_flushes_children', 'Pfst.C02.unpar_flushes_self',
-    'Pfst.C02.renumber_positions',
+    'Pfst.C02.renumber_positions', 'Pfst.C02.setPos_touches_changed', 'Pfst.C02.setPos_written',
+    'Pfst.C02.setPos_guard', 'Pfst.C02.setPos_idempotent',
 ]
 RULE = ('(a) link store: _set_ast / _set_field / _unmake_fst_tree / _make_fst_tree / _touch / _touchall called '
         'directly on real nodes of corpus programs (fresh ASTs, ASTs carrying FSTs of another tree, valid_fst and '
@@ -27,7 +28,7 @@ RULE = ('(a) link store: _set_ast / _set_field / _unmake_fst_tree / _make_fst_tr
         'objects by identity, new ones up to renaming) compared with the Lean model; (b) the set of nodes whose '
         '_cache the _offset walk clears (sentinel entries) compared exactly with the Lean touched set, on real trees '
         'with boundary offset points, all tail/head, exclude/self_ variants; (c) FSTView window arithmetic: '
-        '(_start, _stop) after every editing method vs the Lean model - first deterministically for every window [s:e) and [s:] of 3-element fields x every method, then random sequences; (e) put_line_comment / put_src(action=None) / slice puts to Call, ClassDef, MatchClass / unpar() that overwrites '
+        '(_start, _stop) after every editing method vs the Lean model - first deterministically for every window [s:e) and [s:] of 3-element fields x every method, then random sequences; (k) _set_end_pos / _set_start_pos called directly on real nodes (with / without the old-position guard, matching and non-matching) with sentinel cache entries on every node: touched set and positions of the whole parent chain compared exactly with Pfst.SetPos.setPos, nothing outside the chain touched; (e) _offset_lns (dict and set form) / put_line_comment / put_src(action=None) / slice puts to Call, ClassDef, MatchClass / unpar() that overwrites '
         'parentheses in place, on real nodes with sentinel cache entries: every cache the model of the call site '
         '(_touchall(parents[,self]) resp. touch of every direct child) '
         'clears must be cleared (superset allowed); (f) deterministic product run first: every virtual field (arguments._all with every marker shape, Call._args, ClassDef._bases, Dict._all, MatchMapping._all, MatchClass._attrs, Compare._all) x every span x cut / delete / copy / view cut / view delete / put and view-assign of new elements (every span incl. empty ones, several codes per field), all queries on all nodes before, full check after, and the post-state must be a fixed point of the Lean renumbering loop; (g) deterministic product: 16 list-field kinds x kept view kinds (whole field, [:2], [1:], [1:3], [1:1]) x edit through the kept view (cut, remove, del [:], append, prepend, insert, extend, del [0], none) x growth/shrink through another handle; after every step len / items / start_and_stop of the kept view vs a fresh view on a fresh parse (a whole-field view is always the whole field); kept views are also created and used inside the random histories; (h) deterministic products with the full check: 14 f-string shapes (PEP 701 nesting, format specs with nested fields, = debug, conversions, multi-line, implicit concatenation, multi-byte text before the fields) x every operand inside a field x 5 replacement texts of other lengths; 13 block-statement shapes (match, try with every clause combination, except*, with/async with, for/while else, if/elif/else, decorated def/class with type params) x every header expression x raw replace (raw=True) and put_src(reparse); 12 multi-line statements that do not start at column 0 (after a semicolon, on a block header line) with multi-byte text before them x every ASCII name inside x the same two raw edits; both also as random history steps; (i) deterministic product: separated sequences in 17 enclosing contexts (undelimited Tuple as subscript index / comprehension target / assignment target index, List, Tuple, Set, Dict, Call args, class bases, def parameters, import names, with items, del targets, match sequences) x 7 layouts (one line, one per line, own-line comments before elements, trailing comments, leading comment, mixed, multi-byte) x every proper span deleted or cut x trivia default / False / all, plus par() / par(force) / unpar() / unpar(node) / par-then-unpar on the sequence and on its first and last element, in 10 layouts (three with multi-byte identifiers on only the first or only the last line), full check with CPython as position judge; (j) deterministic product: 15 statement sources with strings whose value depends on the indentation of continuation lines (backslash-continued and multi-line docstrings, class/method docstrings, non-first strings, raw/unicode/bytes/f-strings, assigned and parenthesised strings) put by append / insert / put_slice / replace into blocks of depth 0-3 with 2-space, 3-space, 4-space, 8-space and tab indentation, with docstr default / True / strict / False; the same statements cut out of one depth and put back as FST objects at another; elif -> else-if conversion of a subtree holding such strings; Constant values judged by CPython; (d) random edit histories (replace / remove / '
@@ -46,8 +47,8 @@ TRUSTED = [
     'not modelled: identity of ctx/op singleton ASTs replaced by _make_fst_tree (harness feeds unique objects); allocation '
     'order of new FST objects (compared up to renaming); the contents of cached answers (loc/bloc/pars computation from '
     'source text) - these are compared on the real code against a fresh FST(root.src) and against recomputation after '
-    '_cache.clear() for every node after every edit; _set_start_pos/_set_end_pos/_offset_lns cache clearing is covered '
-    'only by the query-edit-query sweep, not by a model',
+    '_cache.clear() for every node after every edit; the cache clearing of _offset_lns is compared with _touchall(True, True, True) of the model (superset allowed), its position arithmetic is C07\'s model',
+    'modelled (Pfst/SetPos.lean, tied by exact comparison of touched set and positions on real parent chains, guard and sibling variants): _set_end_pos / _set_start_pos; whether next()/prev() finds a sibling is an input taken from the real node (sibling order is C14\'s model)',
     'queries compared: loc, bloc, pars(), pars(shared=False), pars(shared=None), src, own_src(), own_src(docstr=False), '
     'lines, parent/pfield/root/is_root, next/prev/first_child/last_child/next_child/prev_child (all=False, True, "loc"), '
     'step_fwd/step_back/last_header_child, parents()/parent_stmt/parent_scope/parent_block/parent_named_scope/'
@@ -75,7 +76,7 @@ LEVEL_TEXT = ('Lean 4 theorems about an executable model of the FST/AST link sto
               'element and writes nothing else, set_field at any node (root included) keeps the whole tree linked (setField_inv), hence by induction over operation sequences of any length every state reached by default-flag set_ast (any position) / set_field (any node) with fresh inputs and touch / touchall (any flags) steps is well formed (run_wf: link invariant + pairwise distinct ASTs + existing FST objects; the premises wfB / admissibleB are evaluated by the driver on every real call and tallied), no operation sequence changes the root FST, the _offset walk '
               'clears the cache of every node whose subtree positions changed (any tree satisfying geo, any parameters) '
               'hence position-determined cached answers stay coherent, view windows stay valid windows, the repaired '
-              'cache-flush call sites (slice put to Call/ClassDef/MatchClass, unpar in-place write) empty the caches they must. Tied to /repo '
+              'cache-flush call sites (slice put to Call/ClassDef/MatchClass, unpar in-place write) empty the caches they must, _set_end_pos / _set_start_pos touch every node whose position they change, write only nodes that pass the old-position guard and are idempotent. Tied to /repo '
               'each run by running model and implementation on the same object graphs / trees / windows.')
 LEVEL_NOTE = ('Theorems are about the model; set_ast preservation is proved for every position (fresh new tree, valid_fst=False, unmake=True; the other flag combinations only by correspondence), likewise set_field for every node and field (setField_inv), '
               'plus the frame of unmake (non-default flags: the Lean-evaluated invariant on every graph dumped after every edit '
@@ -699,7 +700,10 @@ def _accessor_cases(arg):
             return out
         a = rng.choice(stmts)
         f = a.f
-        which = rng.choice(['line_comment', 'line_comment', 'put_src_none', 'slice_put', 'slice_put', 'unpar_direct'])
+        which = rng.choice(['line_comment', 'line_comment', 'put_src_none', 'slice_put', 'slice_put', 'unpar_direct', 'offset_lns'])
+        if which == 'offset_lns':
+            a = rng.choice([x for _, x in nodes])
+            f = a.f
         if which == 'slice_put':
             c = [x for _, x in nodes if isinstance(x, (ast.Call, ast.MatchClass)) or (isinstance(x, ast.ClassDef) and x.bases)]
             if not c:
@@ -729,7 +733,14 @@ def _accessor_cases(arg):
         before = L.dump_state(ids, root)
         src0 = root.src
         try:
-            if which == 'line_comment':
+            if which == 'offset_lns':
+                lns = {ln: rng.choice([1, 2, -1]) for ln in range(len(root._lines)) if rng.random() < 0.5}
+                if rng.random() < 0.5:
+                    f._offset_lns(lns)                      # dict form: always walks and touches
+                else:
+                    f._offset_lns(set(lns), rng.choice([1, 2, 4]))
+                flags = {'parents': True, 'self': True, 'children': True}       # fst_core._offset_lns
+            elif which == 'line_comment':
                 f.put_line_comment(rng.choice([None, '', 'y', 'a much longer comment than before', 'é ü']))
                 flags = {'parents': True, 'self': False, 'children': False}     # fst_trivia._getput_line_comment
             elif which == 'slice_put':
@@ -758,7 +769,7 @@ def _accessor_cases(arg):
                 flags = {'parents': True, 'self': True, 'children': False}      # FST.put_src(action=None)
         except Exception:
             continue
-        if f.a is not a or root.src == src0:
+        if which != 'offset_lns' and (f.a is not a or root.src == src0):
             continue        # nothing written: nothing has to be cleared
         olds = ids.fobjs[:before['store']['next']]
         # dead objects (removed elements) need not be cleared: report them as cleared
@@ -802,6 +813,92 @@ def corr_accessors(ctx, progs, per):
                                         f'model of the call site clears; first: ' + json.dumps(first, default=str)[:1200])
 
 
+# ---------------------------------------------------------------------------------------------------------------------
+# (k) `_set_end_pos` / `_set_start_pos` vs Pfst.SetPos.setPos: exact touched set, exact positions along the parent chain
+
+def _setpos_cases(arg):
+    src, seed, n = arg
+    rng = random.Random(seed)
+    out = []
+    for _ in range(n):
+        try:
+            root = _mk(src)
+        except Exception:
+            return out
+        allf = [a.f for a in ast.walk(root.a)]
+        f = rng.choice(allf)
+        end = rng.random() < 0.6
+        chain_f = []
+        g = f
+        while g:
+            chain_f.append(g)
+            g = g.parent
+
+        def pos(g):
+            a = g.a
+            if getattr(a, 'end_col_offset', None) is None:
+                return None
+            return [a.end_lineno, a.end_col_offset] if end else [a.lineno, a.col_offset]
+        chain = [[i, pos(g), (g.next() if end else g.prev()) is not None] for i, g in enumerate(chain_f)]
+        own = pos(f) or [1, 0]
+        c = rng.random()
+        new = [own[0], max(0, own[1] + rng.choice([1, 2, 3, -1]))] if c < 0.7 else [own[0] + rng.choice([1, 2]), rng.randint(0, 9)]
+        c = rng.random()
+        if c < 0.4:
+            old = None
+        elif c < 0.85:
+            old = list(own)
+        else:
+            old = [own[0], own[1] + 1]
+        for g in allf:
+            g._cache.clear()
+            g._cache['sentinel'] = 1
+        try:
+            args = tuple(new) + (tuple(old) if old else ())
+            (f._set_end_pos if end else f._set_start_pos)(*args)
+        except Exception as e:
+            out.append(({'f': 'C02.set_pos', 'chain': chain, 'new': new, 'old': old}, {'exc': f'{type(e).__name__}: {e}'[:200]}, end))
+            continue
+        on_chain = {id(g) for g in chain_f}
+        touched = [i for i, g in enumerate(chain_f) if 'sentinel' not in g._cache]
+        outside = sum(1 for g in allf if id(g) not in on_chain and 'sentinel' not in g._cache)
+        out.append(({'f': 'C02.set_pos', 'chain': chain, 'new': new, 'old': old},
+                    {'touched': touched, 'pos': [pos(g) for g in chain_f], 'outside': outside}, end))
+    return out
+
+
+def corr_setpos(ctx, progs, per):
+    name = '_set_end_pos / _set_start_pos vs Pfst.SetPos.setPos'
+    res = pmap(_setpos_cases, [(p, ctx.rng.randrange(1 << 30), per) for p in progs])
+    items = [it for lst in res for it in lst]
+    cases = [it[0] for it in items]
+    try:
+        outs = ctx.lean(cases)
+    except Exception as e:
+        ctx.brk('correspondence', name, f'driver error: {e}')
+        return
+    bad = 0
+    first = None
+    for (case, impl, end), mo in zip(items, outs):
+        ctx.corr_cases += 1
+        m = mo.get('out', mo)
+        n_touched = len(impl.get('touched', ()))
+        ctx.tally('set_pos', ('end' if end else 'start') + (':guard' if case['old'] else ':plain')
+                  + (':stopped-at-0' if n_touched == 0 else ':one' if n_touched == 1 else ':climbed'))
+        ctx.count(json.dumps(case, sort_keys=True), n_touched > 0)
+        ok = isinstance(m, dict) and 'touched' in m and 'exc' not in impl and sorted(m['touched']) == impl['touched'] \
+            and m['pos'] == impl['pos'] and impl['outside'] == 0
+        if not ok:
+            bad += 1
+            first = first or {'case': case, 'impl': impl, 'model': m}
+            ctx.hints.append((name, case))
+    _acc(ctx, name, len(cases))
+    if cases:
+        ctx.sample({'corr': name, 'case': cases[0]})
+    if bad:
+        ctx.brk('correspondence', name, f'{bad}/{len(cases)} cases differ; first: ' + json.dumps(first, default=str)[:1500])
+
+
 def correspondence(ctx):
     q = ctx.quick
     progs = _programs(ctx, 80 if q else 1200, 0 if q else 60)
@@ -811,6 +908,7 @@ def correspondence(ctx):
         corr_links(ctx, chunk, 4 if q else 8)
         corr_touched(ctx, chunk, 5 if q else 12)
         corr_accessors(ctx, chunk + (EXTRA_PROGRAMS * 3 if i == 0 else []), 6 if q else 10)
+        corr_setpos(ctx, chunk, 6 if q else 12)
         if ctx.broken:
             break
     corr_views(ctx, 30 if q else 400)
